@@ -54,6 +54,12 @@ def pool_check(ctx):
             ctx.tlc_runs.append(dict(module='TracePool', out=rr['trace'], generated=rr['generated'], distinct=rr['distinct'], wall_s=rr['wall_s']))
             lines = open(rr['trace']).read().splitlines()
             for b in rr['bad']:
+                if 'the sequential specification' in b['why']:
+                    # the RESULT of the call against the specification: decided by the gate replay above, which also
+                    # asks whether the outcome depends on the context (a deterministic deviation is C01 / C06 business)
+                    cov['compared']['ret events differing from the sequential specification (decided by the gate replay)'] = \
+                        cov['compared'].get('ret events differing from the sequential specification (decided by the gate replay)', 0) + 1
+                    continue
                 # the whole run the event belongs to
                 i = b['line'] - 1
                 a0 = max(j for j in range(i + 1) if '"ev":"reset"' in lines[j])
@@ -115,7 +121,24 @@ def pool_check(ctx):
     # (e) free-running goroutines under the race detector, every call validated against the sequential spec
     race = ctx.build_harness(race=True)
     v2, st = record_and_validate(ctx, 'C14', n=60000 if thorough else 2400, tier='concurrent', exe=race)
-    viol += v2
+    # C14 is dependence on context: a rejected event is its business when an object changed between two of its own
+    # calls, or when the same call made again ALONE (harness mode retrace) gives another outcome than the one
+    # recorded under concurrency; an outcome that comes out again alone deviates from the specification
+    # deterministically and belongs to the property that pins it (counted, not reported here)
+    CONTEXT = ('object changed between two of its own calls', 'Vector() changed the object', 'scoring changed the object', 'Get changed the object')
+    mine = [v for v in v2 if any(k in v['kind'] for k in CONTEXT)]
+    rest = [v for v in v2 if not any(k in v['kind'] for k in CONTEXT)]
+    if rest:
+        evp = os.path.join(ctx.work, 'retrace-in.json')
+        json.dump([v['replay']['event'] for v in rest[:2000]], open(evp, 'w'))
+        rr = ctx.harness('retrace', prop='C14', aux=json.dumps(tabs), **{'in': evp})
+        rep = rr['info'].get('reproduced', [])
+        for v, same in zip(rest, rep):
+            if not same:
+                v['kind'] += ' (and the same call made alone gives another outcome)'
+                mine.append(v)
+        cov['compared']['rejected events that come out the same when made alone (left to the property that pins them)'] = sum(1 for x in rep if x)
+    viol += mine
     racelog = st.get('stderr', '')
     cov['compared']['concurrent recorded events validated by TLC'] = st['events']
     cov['samples'] += st['samples'][:1]
